@@ -17,6 +17,8 @@ use zipora::io::{DataInput, DataOutput};
 
 type R<T> = Result<T, String>;
 fn es(e: zipora::ZiporaError) -> String { e.to_string() }
+/// Debug text of a value, cut to a readable length (collections of the big families have tens of thousands of elements).
+fn short<T: Debug>(v: &T) -> String { let d = format!("{:?}", v); if d.len() > 240 { format!("{}... ({} characters)", d.chars().take(240).collect::<String>(), d.len()) } else { d } }
 
 /// decode `bytes ++ tail` with `dec`, demanding the value back and exactly |bytes| consumed,
 /// over a slice input, a std::io reader and a reader that returns short reads.
@@ -27,12 +29,12 @@ fn check_dec<T: PartialEq + Debug>(what: &str, bytes: &[u8], tail: &[u8], v: &T,
     all.extend_from_slice(tail);
     let mut i = SliceDataInput::new(&all);
     let g = dec_s(&mut i).map_err(|e| format!("{}: decode failed: {}", what, e))?;
-    if &g != v { return Err(format!("{}: decoded {:?}, want {:?}", what, g, v)); }
+    if &g != v { return Err(format!("{}: decoded {}, want {}", what, short(&g), short(v))); }
     if i.pos() != bytes.len() { return Err(format!("{}: consumed {} bytes, the encoder produced {}", what, i.pos(), bytes.len())); }
     for k in [1usize, 3, 1 << 20] {
         let mut i = ReaderDataInput::new(Chunky { inner: Cursor::new(all.clone()), k });
         let g = dec_r(&mut i).map_err(|e| format!("{}: decode over a reader failed: {}", what, e))?;
-        if &g != v { return Err(format!("{}: decoded {:?} over a reader, want {:?}", what, g, v)); }
+        if &g != v { return Err(format!("{}: decoded {} over a reader, want {}", what, short(&g), short(v))); }
         if i.pos() != bytes.len() as u64 { return Err(format!("{}: consumed {} bytes over a reader, the encoder produced {}", what, i.pos(), bytes.len())); }
     }
     Ok(())
